@@ -1732,6 +1732,8 @@ func (p *parser) domainTextLitEx(off, end token.Pos) *ast.DomainTextLitEx {
 
 	var args []ast.Expr
 	var sp parser
+	// report the sub-parser's errors (also when it bails out), like stringLitExpr does
+	defer func() { p.errors = append(p.errors, sp.errors...) }()
 	sp.initSub(file, src, int(off)-base, 0)
 
 	for {
